@@ -990,8 +990,21 @@ namespace detail {
             }
             else
             {
+                // the initial state is the same state type as the one the transitions name: with its flags and
+                // its entry / exit lines
+                auto init_l = [stt]() {return boost::msm::front::puml::detail::parse_inits<rnum>(stt()); };
+                auto stt_l = [stt]() {return std::string_view(stt()); };
+                auto entry_l = []() {return "entry"; };
+                auto exit_l = []() {return "exit"; };
+                using init_state =
+                    State< by_name(boost::msm::front::puml::detail::parse_inits<rnum>(stt())),
+                           decltype(boost::msm::front::puml::detail::parse_terminate(
+                               stt_l, init_l, boost::msm::front::puml::detail::parse_flags(stt_l, init_l))),
+                           decltype(parse_state_actions(stt_l, init_l, entry_l)),
+                           decltype(parse_state_actions(stt_l, init_l, exit_l))
+                    >;
                 return boost::msm::front::puml::detail::create_inits_helper<Func, regions, rnum + 1>(
-                    stt, typename ::boost::mpl::push_back< T, State<by_name(boost::msm::front::puml::detail::parse_inits<rnum>(stt()))> >::type{});
+                    stt, typename ::boost::mpl::push_back< T, init_state >::type{});
             }
         }
 
